@@ -80,6 +80,27 @@ func init() {
 					}
 				}
 			}
+			// wrappers: a function whose body calls a raiser as a statement of its outermost block (unconditionally)
+			for round := 0; round < 2; round++ {
+				for _, f := range p.FnList {
+					if f.Short != "manager" || f.Body() == nil || f.Lit != nil {
+						continue
+					}
+					fo, ok := f.Pkg.TypesInfo.Defs[f.Decl.Name].(*types.Func)
+					if !ok || raisers[fo] {
+						continue
+					}
+					for _, st := range f.Body().List {
+						if es, ok := st.(*ast.ExprStmt); ok {
+							if c, ok := es.X.(*ast.CallExpr); ok {
+								if fn, ok := typeutil.Callee(f.Pkg.TypesInfo, c).(*types.Func); ok && raisers[fn.Origin()] {
+									raisers[fo] = true
+								}
+							}
+						}
+					}
+				}
+			}
 			viaIface := func(fn *types.Func) bool {
 				if fn.Name() != dataM.Name() {
 					return false
